@@ -76,7 +76,37 @@ func flooredDiv(k, g *big.Int) *big.Int {
 // glvScalar draws a scalar from the GLV-specific classes.
 func glvScalar(r *gen.Rng, c *glvConsts, lambda *big.Int) (*big.Int, string) {
 	n := bigN
-	switch r.Intn(15) {
+	switch r.Intn(17) {
+	case 15, 16:
+		// scalars around 2^128 and around the magnitudes at which the rounded quotients
+		// c1, c2 first become non-zero (2^383/g, 2^384/g): the border between "no split
+		// needed" and the general case
+		switch r.Intn(4) {
+		case 0:
+			v := new(big.Int).Lsh(big.NewInt(1), uint(120+r.Intn(17)))
+			v.Add(v, big.NewInt(int64(r.Intn(5)-2)))
+			return oracle.Mod(v, n), "short-scalar-window"
+		case 1:
+			v := new(big.Int).Lsh(big.NewInt(1), uint(124+r.Intn(10)))
+			v.Add(v, r.BigBits(v.BitLen()-1))
+			return oracle.Mod(v, n), "short-scalar-window"
+		case 2:
+			// 2^128 + a fraction of 2^128
+			v := new(big.Int).Lsh(big.NewInt(1), 128)
+			v.Add(v, r.BigBits(110+r.Intn(18)))
+			return oracle.Mod(v, n), "short-scalar-window"
+		default:
+			g := c.g1
+			if r.Bool() {
+				g = c.g2
+			}
+			v := new(big.Int).Div(new(big.Int).Lsh(big.NewInt(1), uint(383+r.Intn(2))), g)
+			v.Add(v, big.NewInt(int64(r.Intn(7)-3)))
+			if r.Chance(1, 3) {
+				v.Sub(v, r.BigBits(1+r.Intn(126)))
+			}
+			return oracle.Mod(v, n), "short-scalar-window"
+		}
 	case 12, 13:
 		// halves whose 64-bit limbs are structured: zero / all-ones low or high
 		// limb (|k2| a multiple of 2^64, two's-complement carries between the
@@ -248,7 +278,7 @@ func runC04(r *mon.Run) {
 	r.Extra("derived_g2", hb(c.g2))
 
 	if hk.HaveMul {
-		r.Require("c04:split:rounding-bit-boundary", "c04:split:limb-carry-boundary", "c04:split:extreme-halves", "c04:split:structured-halves", "c04:split:half-order-limb-relations", "c04:split:half>=2^127",
+		r.Require("c04:split:rounding-bit-boundary", "c04:split:limb-carry-boundary", "c04:split:extreme-halves", "c04:split:structured-halves", "c04:split:half-order-limb-relations", "c04:split:short-scalar-window", "c04:split:half>=2^127",
 			"c04:split:k1-negated", "c04:split:k2-negated", "c04:round:bit383=1", "c04:round:bit383=0", "c04:round:carry-into-next-limb")
 		maxBits := make([]int, 64)
 		r.Each("c04/split", r.N(150000, 6000000), func(w *mon.W, i int) {
@@ -340,7 +370,7 @@ func runC04(r *mon.Run) {
 	// --- end to end --------------------------------------------------------------
 	pool := knownPointPool(r.Seed, r.N(4, 24))
 	np := len(pool)
-	r.Require("c04:mult:P=inf", "c04:mult:s=0", "c04:mult:rcv=P", "c04:mult:rep-nontrivial", "c04:mult:extreme-halves", "c04:mult:rounding-bit-boundary", "c04:mult:structured-halves", "c04:mult:half-order-limb-relations")
+	r.Require("c04:mult:P=inf", "c04:mult:s=0", "c04:mult:rcv=P", "c04:mult:rep-nontrivial", "c04:mult:extreme-halves", "c04:mult:rounding-bit-boundary", "c04:mult:structured-halves", "c04:mult:half-order-limb-relations", "c04:mult:short-scalar-window")
 	entry := []string{"ScalarMult", "MultiScalarMult[1]", "DoubleScalarMultBasepointVartime(0,s,P)", "MultiScalarMultVartime[1]", "scalarMultVartimeGLV"}
 	r.Each("c04/mult", r.N(2600, 100000), func(w *mon.W, i int) {
 		rng := w.Rng
